@@ -216,6 +216,8 @@ def owner_methods(m, F, E, L):
         f = m.func(name)
         if class_of(f) != L.cls or f.is_const_method():
             continue
+        if 'this' not in own.func_roles(f):
+            continue
         ti = f.this_index()
         s = E.sum[name]
         if ti in s['writes'] or ti in s['frees'] or is_ctor(f) or is_dtor(f):
